@@ -130,6 +130,10 @@ def stepCodec (s : CState) (toks : List String) : Option (CState × String) :=
   | ["WTYPE", i] => let m := (s.get (nat! i)).writeType; let s' := s.set (nat! i) m; some (s', s'.dumpS (nat! i))
   | ["WTID", i] => let m := (s.get (nat! i)).writeTransactionID; let s' := s.set (nat! i) m; some (s', s'.dumpS (nat! i))
   | ["WATTRS", i] => let m := (s.get (nat! i)).writeAttributes; let s' := s.set (nat! i) m; some (s', s'.dumpS (nat! i))
+  | ["DROPATTR", i, k] =>
+    let m := s.get (nat! i)
+    let s' := s.set (nat! i) { m with attrs := m.attrs.eraseIdx (nat! k) }
+    some (s', s'.dumpS (nat! i))
   | ["ENCODE", i] => let m := (s.get (nat! i)).encode; let s' := s.set (nat! i) m; some (s', s'.dumpS (nat! i))
   | ["SETTYPE", i, me, c] =>
     let m := (s.get (nat! i)).setType (nat! me) (nat! c); let s' := s.set (nat! i) m; some (s', s'.dumpS (nat! i))
